@@ -40,7 +40,19 @@ func (g *GateRun) Signature() string { return strings.Join(g.Order, "\x01") }
 // Picker chooses among the distinct held keys at a free decision.
 type Picker func(step int, alts []string) int
 
+// GateOptions of RunGatedOpts.  Fault, when set, may replace the answer of a held request (the
+// request is still held and released by the controller; only what is returned changes).
+// AfterRelease is slept after a release while other responses are still held, so that the released
+// response is merged before the next one is let go (merge order = release order).
+type GateOptions struct {
+	Settle       time.Duration
+	ExpectTotal  int
+	AfterRelease time.Duration
+	Fault        func(key string, req *fedlab.Request) *fedlab.Action
+}
+
 type gateCtl struct {
+	fault   func(key string, req *fedlab.Request) *fedlab.Action
 	mu      sync.Mutex
 	held    map[string][]*GateEvent
 	nHeld   int
@@ -66,6 +78,13 @@ func (c *gateCtl) hook(_ int, req *fedlab.Request) fedlab.Action {
 	case c.notify <- struct{}{}:
 	default:
 	}
+	if c.fault != nil {
+		if a := c.fault(ev.Key, req); a != nil {
+			act := *a
+			act.Wait = ev.gate
+			return act
+		}
+	}
 	return fedlab.Action{Wait: ev.gate}
 }
 
@@ -85,7 +104,13 @@ func (c *gateCtl) heldKeys() []string {
 // chooses among the held requests once the gateway has gone quiet (no arrival for settle, or all
 // expectTotal requests seen).  A request that arrives after a release joins the pool.
 func RunGated(lab *fedlab.Lab, op, opName string, vars []byte, prefix []string, pick Picker, settle time.Duration, expectTotal int) *GateRun {
-	c := &gateCtl{held: map[string][]*GateEvent{}, notify: make(chan struct{}, 1)}
+	return RunGatedOpts(lab, op, opName, vars, prefix, pick, GateOptions{Settle: settle, ExpectTotal: expectTotal})
+}
+
+// RunGatedOpts is RunGated with fault injection on held requests and a pause after each release.
+func RunGatedOpts(lab *fedlab.Lab, op, opName string, vars []byte, prefix []string, pick Picker, gopts GateOptions) *GateRun {
+	settle, expectTotal := gopts.Settle, gopts.ExpectTotal
+	c := &gateCtl{held: map[string][]*GateEvent{}, notify: make(chan struct{}, 1), fault: gopts.Fault}
 	run := &GateRun{}
 	done := make(chan *fedlab.Result, 1)
 	go func() {
@@ -99,6 +124,7 @@ func RunGated(lab *fedlab.Lab, op, opName string, vars []byte, prefix []string, 
 		ev := q[0]
 		c.held[key] = q[1:]
 		c.nHeld--
+		still := c.nHeld
 		c.mu.Unlock()
 		ev.Step = released
 		ev.Released = time.Now()
@@ -106,6 +132,9 @@ func RunGated(lab *fedlab.Lab, op, opName string, vars []byte, prefix []string, 
 		released++
 		run.Order = append(run.Order, key)
 		run.Choices = append(run.Choices, Choice{Chosen: key, Alts: alts, Free: free})
+		if gopts.AfterRelease > 0 && still > 0 {
+			time.Sleep(gopts.AfterRelease)
+		}
 	}
 	wait := func(d time.Duration) {
 		t := time.NewTimer(d)
